@@ -149,7 +149,48 @@ def _mk_ctor_guards():
     return ob
 
 
+_FRESH = r"""
+import sys, os
+sys.path.insert(0, os.environ.get("GTV_REPO", "/repo"))
+import jax
+jax.config.update("jax_enable_x64", True)
+import jax.numpy as jnp
+from gaussian_toolbox import factor, measure, pdf, conditional
+assert os.path.realpath(factor.__file__).startswith(os.path.realpath(os.environ.get("GTV_REPO", "/repo"))), factor.__file__
+L = 2.0 * jnp.eye(2)[None]
+objs = [factor.ConjugateFactor(Lambda=L), factor.OneRankFactor(v=jnp.ones((1, 2))), factor.LinearFactor(nu=jnp.ones((1, 2))),
+        factor.ConstantFactor(ln_beta=jnp.zeros(1), num_dim=2), measure.GaussianMeasure(Lambda=L), measure.GaussianDiagMeasure(Lambda=L),
+        pdf.GaussianPDF(Sigma=L, mu=jnp.zeros((1, 2))), pdf.GaussianDiagPDF(Sigma=L, mu=jnp.zeros((1, 2))),
+        conditional.ConditionalGaussianPDF(M=jnp.ones((1, 2, 2)), Sigma=L), conditional.ConditionalIdentityGaussianPDF(Sigma=L)]
+bad = []
+for o in objs:
+    if jax.tree_util.all_leaves([o]):
+        bad.append(type(o).__name__ + ": not a registered pytree node after construction")
+        continue
+    try:
+        jax.jit(lambda q: q.Lambda)(o)
+    except Exception as ex:
+        bad.append(type(o).__name__ + ": jit rejects the object: " + type(ex).__name__)
+print("BAD:" + "; ".join(bad) if bad else "OK")
+"""
+
+
+def _mk_fresh_process():
+    """lazy registration observed in a FRESH interpreter (inside a long-lived checking process an earlier obligation may
+    already have registered a class by another route): construct one object per class, nothing else, then hand it to jit"""
+    def ob(w):
+        import os
+        import subprocess
+        p = subprocess.run(["/venv/bin/python", "-W", "ignore", "-c", _FRESH], capture_output=True, text=True, timeout=600,
+                           env=dict(os.environ, JAX_PLATFORMS="cpu"))
+        out = (p.stdout.strip().splitlines() or [""])[-1]
+        w.check("registered-on-construction/fresh-process", p.returncode == 0 and out == "OK", (out + " " + p.stderr[-300:]).strip())
+    return ob
+
+
 def _register():
+    REG.ob("lazy-registration/fresh-process", sorts=[], funcs=["utils.dataclass._Dataclass.__call__._init",
+           "utils.dataclass.register_dataclass_type_with_jax_tree_util"], numeric=False)(_mk_fresh_process())
     REG.ob("constructor-guards", sorts=["R", "D"], funcs=["utils.dataclass.mappable_dataclass.new_init"])(_mk_ctor_guards())
     for kind in KINDS:
         for R in ("R", 1):
